@@ -18,6 +18,7 @@
 #include <cstring>
 #include <mutex>
 #include <sys/wait.h>
+#include <sys/mman.h>
 #include <chrono>
 using namespace photon;
 
@@ -40,10 +41,25 @@ struct StackRec {
         if (lg) vt::Ev("Alloc").i("s", id);
         return p;
     }
+    // A released stack is not handed back at once: it is made inaccessible and kept in quarantine until the end of the
+    // execution, so that any later access by the thread that lived on it (or by anybody else) is a fault, not silent reuse.
+    std::vector<std::pair<void*, size_t>> quarantine;
+    bool quarantining = false;
     void dealloc(void* p, size_t size) {
-        lock(); auto it = live.find((char*)p); int id = it == live.end() ? -1 : it->second.second; if (it != live.end()) live.erase(it); bool lg = logging; unlock();
+        lock(); auto it = live.find((char*)p); int id = it == live.end() ? -1 : it->second.second; if (it != live.end()) live.erase(it); bool lg = logging;
+        bool qn = quarantining && id > 0;
+        if (qn) quarantine.emplace_back(p, size);
+        unlock();
         if (lg) vt::Ev("Free").i("s", id);
+        if (qn) { mprotect(p, size, PROT_NONE); return; }
         if (g_pooled) pooled_stack_dealloc(nullptr, p, size); else default_photon_thread_stack_dealloc(nullptr, p, size);
+    }
+    void release_quarantine() {
+        lock(); auto q = quarantine; quarantine.clear(); unlock();
+        for (auto& e : q) {
+            mprotect(e.first, e.second, PROT_READ | PROT_WRITE);
+            if (g_pooled) pooled_stack_dealloc(nullptr, e.first, e.second); else default_photon_thread_stack_dealloc(nullptr, e.first, e.second);
+        }
     }
     int find(const void* inner) {
         lock(); int id = -1;
@@ -174,6 +190,59 @@ static bool exec_life(int ex, vt::Rng& r) {
     for (size_t v = 0; v < g_vc.vc.size(); v++) d.i((int64_t)get_info(INFO_THREAD_NUM, g_vc.vc[v]) - base[v]);
     thread_usleep(2000);
     vt::Ev("Quiesce").raw("nth", d.str());
+    g_stacks.release_quarantine();
+    return true;
+}
+
+// thread_join() racing with the last steps of the dying thread on another vCPU: the dying thread is held for a moment at
+// the guarded hook in die() (state DONE, its lock still held, still running on its own stack) while the main thread joins it.
+// The stack is released inside thread_join(); with the quarantine above any later access by the dying thread faults.
+static bool exec_joinrace(int ex, vt::Rng& r) {
+    int n = 2 + (int)r.below(3);
+    vt::Arr fl; for (int f : g_vc.flags) fl.i(f);
+    vt::Ev("Reset").s("prim", "joinrace").i("ex", ex).i("n", n).i("vcpus", (int)g_vc.vc.size()).raw("flags", fl.str()).b("pooled", g_pooled).b("tpool", false);
+    std::vector<int64_t> base;
+    for (auto v : g_vc.vc) base.push_back((int64_t)get_info(INFO_THREAD_NUM, v));
+    std::vector<std::unique_ptr<LW>> ws;
+    static std::atomic<int> hold_us{0};
+    vtp::hook_callback() = [](uint32_t id, const void* obj, uint64_t, uint64_t, uint64_t) {
+        if (id != VT_DIE || vtp::reg().get(obj) <= 0) return;
+        auto t0 = std::chrono::steady_clock::now();
+        while (std::chrono::steady_clock::now() - t0 < std::chrono::microseconds(hold_us.load())) {}
+    };
+    hold_us = 100 + (int)r.below(600);
+    {
+        vtp::GateGuard gg;
+        for (int i = 0; i < n; i++) {
+            ws.emplace_back(new LW()); auto w = ws.back().get();
+            w->id = i + 1; w->seed = r.next(); w->nops = 1 + (int)r.below(3); w->joinable = true;
+            vt::Ev("CreateInv").i("t", w->id).b("join", true).b("steal", false).b("pool", false);
+            w->th = thread_create(&life_entry, w, 128 * 1024, 0, THREAD_JOINABLE);
+            vtp::reg().set(w->th, w->id);
+            vt::Ev("CreateResp").i("t", w->id).i("stack", g_stacks.find(w->th));
+            int to = 1 + (int)r.below(g_vc.vc.size() - 1);        // always another vCPU than the joiner's
+            thread_migrate(w->th, g_vc.vc[to]);
+        }
+    }
+    for (auto& w : ws) {
+        for (unsigned k = 0; !w->done.load(); k++) if (k % 256 == 255) thread_yield();   // mostly spinning: join as soon as the entry function has returned
+        for (volatile int i = 0; i < (int)r.below(3000); i++) {}
+        vt::Ev("JoinInv").i("t", w->id);
+        void* ret = thread_join((join_handle*)w->th);
+        vt::Ev("JoinResp").i("t", w->id).i("ret", (int64_t)(uintptr_t)ret);
+    }
+    vtp::hook_callback() = nullptr;
+    vt::Arr d;
+    for (int tries = 0; tries < 400; tries++) {
+        bool same = true;
+        for (size_t v = 0; v < g_vc.vc.size(); v++) if ((int64_t)get_info(INFO_THREAD_NUM, g_vc.vc[v]) != base[v]) same = false;
+        if (same) break;
+        thread_usleep(500);
+    }
+    for (size_t v = 0; v < g_vc.vc.size(); v++) d.i((int64_t)get_info(INFO_THREAD_NUM, g_vc.vc[v]) - base[v]);
+    thread_usleep(1000);
+    vt::Ev("Quiesce").raw("nth", d.str());
+    g_stacks.release_quarantine();
     return true;
 }
 
@@ -259,9 +328,10 @@ int main(int argc, char** argv) {
     g_stacks.logging = true;
     vtp::Watchdog wd; wd.start(30, prim.c_str());
     int rc = 0;
+    g_stacks.quarantining = !g_pooled;        // (the pooled allocator recycles stacks itself; quarantine only with the default one)
     if (prim == "steal9") rc = run_steal9(200);
     else for (int ex = 0; ex < g_execs; ex++)
-        if (!exec_life(ex, r)) { rc = 4; break; }
+        if (!(prim == "joinrace" ? exec_joinrace(ex, r) : exec_life(ex, r))) { rc = 4; break; }
     wd.end();
     g_stacks.logging = false;
     vt::close();
